@@ -522,6 +522,105 @@ def check_reuse(case, col=None):
     return fails
 
 
+# ---------------------------------------------------------------------------
+# family: a nested component that is prepared but whose output never reaches the page
+
+
+UNRENDERED_SHAPES = ["arg_ignored", "arg_printed", "arg_ignored_nested", "arg_ignored_then_fail"]
+
+
+def check_unrendered(case, col=None):
+    """A component written inside a nested-template tag ARGUMENT (`val="{% component 'child' v=obj / %}"`) is prepared
+    while the arguments are resolved; whether it is ever rendered depends on the receiver printing the value. Either way
+    the finished (or failed) render must leave nothing behind and the object passed to the child must become unreachable."""
+    import gc
+    import weakref
+
+    from django.template import Context, Template
+
+    from django_components import Component, registry
+
+    mode, shape = case["mode"], case["shape"]
+    fails = []
+    env.reset()
+    with env.components_settings(context_behavior=mode):
+
+        class Child(Component):
+            template = "<i>{{ v }}</i>"
+
+            def get_context_data(self, v=None):
+                return {"v": v}
+
+        class Ignore(Component):
+            template = "<b>ignored</b>"
+
+            def get_context_data(self, val=None):
+                return {}
+
+        class Show(Component):
+            template = "<b>{{ val }}</b>"
+
+            def get_context_data(self, val=None):
+                return {"val": val}
+
+        class Boom(Component):
+            template = "x"
+
+            def get_context_data(self):
+                raise ReuseBoom("boom after an unrendered sibling")
+
+        class Outer(Component):
+            template = "<div>{% component 'vf_ignore' val=\"{% component 'vf_child' v=obj / %}\" / %}</div>"
+
+            def get_context_data(self, obj=None):
+                return {"obj": obj}
+
+        for n_, c_ in (("vf_child", Child), ("vf_ignore", Ignore), ("vf_show", Show), ("vf_boom", Boom), ("vf_outer", Outer)):
+            c_.__module__ = "vfgen.c06u"
+            registry.register(n_, c_)
+        import sys as _sys
+        import types as _types
+
+        if "vfgen.c06u" not in _sys.modules:
+            _m = _types.ModuleType("vfgen.c06u")
+            _m.__file__ = None
+            _sys.modules["vfgen.c06u"] = _m
+        arg = "\"{% component 'vf_child' v=obj / %}\""
+        src = {
+            "arg_ignored": "{% component 'vf_ignore' val=" + arg + " / %}",
+            "arg_printed": "{% component 'vf_show' val=" + arg + " / %}",
+            "arg_ignored_nested": "{% component 'vf_outer' obj=obj / %}",
+            "arg_ignored_then_fail": "{% component 'vf_ignore' val=" + arg + " / %}{% component 'vf_boom' / %}",
+        }[shape]
+        tpl = Template(src)
+        refs = []
+        for rep in range(3):
+            s_ = Sentinel()
+            refs.append(weakref.ref(s_))
+            try:
+                out = tpl.render(Context({"obj": s_}))
+                if shape == "arg_ignored_then_fail":
+                    fails.append(("[%s] %s: the injected failure did not propagate" % (mode, shape), "c06-unrendered-swallowed"))
+                elif shape == "arg_printed" and ">S</i>" not in out:
+                    fails.append(("[%s] %s: the printed argument did not render the nested component: %r" % (mode, shape, out[:200]), "c06-unrendered-output"))
+            except ReuseBoom:
+                pass
+            except Exception as e:  # noqa
+                fails.append(("[%s] %s: render raised %r" % (mode, shape, e), "c06-unrendered-exc:" + exc_bucket(e)))
+            del s_
+            gc.collect()
+            res = {k: v for k, v in env.registry_sizes().items() if v}
+            if res and not fails:
+                fails.append(("[%s] %s (%s): registries not empty after render #%d: %r" % (mode, shape, src, rep + 1, res), "c06-unrendered-residue"))
+        alive = sum(1 for r in refs if r() is not None)
+        if alive and not fails:
+            fails.append(("[%s] %s (%s): %d of the 3 objects passed to the nested component are still reachable after the renders" % (mode, shape, src, alive), "c06-unrendered-sentinel-alive"))
+    if col is not None:
+        col.case(jhash(["unrendered", mode, shape]), True, sample={"family": "component inside a tag argument, output printed or not", "mode": mode, "shape": shape}, labels=("unrendered_child",))
+    env.reset()
+    return fails
+
+
 def plan(tier, seed, scale=1.0):
     b = BOUNDS[tier]
     n = max(16, int(b["programs"] * scale))
@@ -535,6 +634,8 @@ def plan(tier, seed, scale=1.0):
     for mode in ("django", "isolated"):
         for point in REUSE_POINTS:
             specs.append({"kind": "reuse", "mode": mode, "point": point})
+        for shape in UNRENDERED_SHAPES:
+            specs.append({"kind": "unrendered", "mode": mode, "shape": shape})
     return specs
 
 
@@ -553,6 +654,11 @@ def run_shard(spec):
     if spec["kind"] == "reuse":
         case = {"kind": "reuse", "mode": spec["mode"], "point": spec["point"]}
         for m, b in check_reuse(case, col):
+            col.fail(case, m, b)
+        return col
+    if spec["kind"] == "unrendered":
+        case = {"kind": "unrendered", "mode": spec["mode"], "shape": spec["shape"]}
+        for m, b in check_unrendered(case, col):
             col.fail(case, m, b)
         return col
     if spec["kind"] == "main":
@@ -574,4 +680,6 @@ def replay(case):
         return check_pyslots(case)
     if case.get("kind") == "reuse":
         return check_reuse(case)
+    if case.get("kind") == "unrendered":
+        return check_unrendered(case)
     return check_program(case)
